@@ -1781,6 +1781,7 @@ func (self *LockDB) doTimeOut(lock *Lock, forcedExpried bool, removeWaited bool)
 		} else {
 			_ = lockProtocol.FreeLockCommandLocked(lockCommand)
 		}
+		self.wakeUpWaitLocks(lockManager, nil)
 	}
 }
 
@@ -2112,6 +2113,7 @@ func (self *LockDB) Lock(serverProtocol ServerProtocol, command *protocol.LockCo
 				lockManager.glock.Unlock()
 				_ = serverProtocol.ProcessLockResultCommand(command, protocol.RESULT_LOCKED_ERROR, uint16(lockManager.locked), currentLock.locked, lockData)
 				_ = serverProtocol.FreeLockCommand(currentLockCommand)
+				self.wakeUpWaitLocks(lockManager, nil)
 				return nil
 			}
 			if currentLock.locked < 0xff && currentLock.locked <= command.Rcount && command.TimeoutFlag&protocol.TIMEOUT_FLAG_RCOUNT_IS_PRIORITY == 0 {
@@ -2159,6 +2161,7 @@ func (self *LockDB) Lock(serverProtocol ServerProtocol, command *protocol.LockCo
 
 				_ = serverProtocol.ProcessLockResultCommand(command, protocol.RESULT_SUCCED, uint16(lockManager.locked), currentLock.locked, lockData)
 				_ = serverProtocol.FreeLockCommand(currentLockCommand)
+				self.wakeUpWaitLocks(lockManager, nil)
 				return nil
 			}
 
@@ -2727,9 +2730,7 @@ func (self *LockDB) cancelWaitLock(lockManager *LockManager, command *protocol.L
 	_ = lockProtocol.ProcessLockResultCommandLocked(lockCommand, protocol.RESULT_UNLOCK_ERROR, uint16(lockManager.locked), waitLock.locked, lockManager.GetLockData())
 	_ = lockProtocol.FreeLockCommandLocked(lockCommand)
 
-	if lockLocked > 0 {
-		self.wakeUpWaitLocks(lockManager, nil)
-	}
+	self.wakeUpWaitLocks(lockManager, nil)
 }
 
 func (self *LockDB) addUnlockLockCommandToWaitLock(lockManager *LockManager, command *protocol.LockCommand, requestCommand *protocol.LockCommand, serverProtocol ServerProtocol) {
